@@ -23,6 +23,8 @@ HOW = ("case_from_json(case) -> cube_aggs.run_cube(catii, case, 'c'|'x', format)
 def pick_fmt(rng, c):
     while True:
         fmt = rng.choice(FORMATS)
+        if c.get("unit") and c["kind"] == "valid_count" and fmt[0] == "plain":
+            continue            # the plain-0 shortcut snaps weighted counts below 1e-8 to 0 (documented shortcut / exclusion)
         if not ca.is_shortcut(c, fmt):
             return fmt
 
@@ -71,7 +73,9 @@ def run(ctx):
     S = ca.Suite(ctx, catii)
 
     def one(c, tag):
-        fmt = pick_fmt(rng, c)
+        return one_fmt(c, tag, pick_fmt(rng, c))
+
+    def one_fmt(c, tag, fmt):
         S.count("stream:" + tag)
         S.count("kind:" + c["kind"])
         S.count("weights:" + c["wkind"])
@@ -114,6 +118,23 @@ def run(ctx):
     for i in range(3000 if thorough else 260):
         rc_ = ca.relations_case(rng)
         ca.run_relations(S, rc_, pick_fmt(rng, rc_))
+    for i in range(3000 if thorough else 260):
+        base = None
+        for uc, ff, wf in ca.unit_variants(rng):
+            S.count("unit:fact x %g, weight x %g" % (float(ff), float(wf)))
+            if uc.get("float_stream"):
+                one(uc, "unit")
+                continue
+            fmt_u = ("nan",) if base is None else base[0]
+            rc, rx = one_fmt(uc, "unit", fmt_u)
+            if base is None:
+                base = (fmt_u, rc, rx)
+            else:
+                for w_, r0, r1 in (("c", base[1], rc), ("x", base[2], rx)):
+                    if r0 and r1 and r0.get("cells") is not None and r1.get("cells") is not None:
+                        bad = ca.unit_law(uc, r0["cells"], r1["cells"], ff, wf)
+                        if bad and not any(f["case"] == ca.case_json(uc) for f in S.found[-2:]):
+                            S.fail(uc, fmt_u, w_, "unit law: " + bad)
     for i in range(2500 if thorough else 200):
         one(ca.int_weights_case(rng), "int-weights")
     for i in range(2000 if thorough else 160):
